@@ -64,6 +64,41 @@ Print Assumptions C13_zero_stored_crc_disables_check.
 Example C13_zero_crc_reachable : crc32 [0x9d; 0x0a; 0xd9; 0x6d] = 0.
 Proof. vm_compute. reflexivity. Qed.
 
+(** The comparison of [readPage], characterised: a body is accepted exactly
+    when the stored checksum is 0 (the exclusion above) or is the checksum of
+    the body.  Hence an alteration of the STORED CHECKSUM FIELD (any non-zero
+    bit pattern [e] flipped in it, as long as the result is not 0) is reported
+    as well, and two bodies accepted against the same non-zero stored value
+    have the same checksum: with the burst theorem, no body that differs from
+    an accepted one by a burst of at most 32 bits is accepted. *)
+Theorem C13_accepts_iff : forall stored body,
+  read_page_accepts stored body = true <-> stored = 0 \/ stored = crc32 body.
+Proof. exact read_page_accepts_iff. Qed.
+Print Assumptions C13_accepts_iff.
+
+Theorem C13_wrong_stored_checksum_rejected : forall stored body,
+  stored <> 0 -> stored <> crc32 body -> read_page_accepts stored body = false.
+Proof. exact read_page_rejects_wrong_stored. Qed.
+Print Assumptions C13_wrong_stored_checksum_rejected.
+
+Theorem C13_flipped_checksum_field_rejected : forall body e,
+  e <> 0 -> N.lxor (crc32 body) e <> 0 ->
+  read_page_accepts (N.lxor (crc32 body) e) body = false.
+Proof. exact read_page_rejects_flipped_checksum. Qed.
+Print Assumptions C13_flipped_checksum_field_rejected.
+
+Theorem C13_accepted_bodies_share_checksum : forall stored body body',
+  stored <> 0 -> read_page_accepts stored body = true -> read_page_accepts stored body' = true ->
+  crc32 body = crc32 body'.
+Proof. exact read_page_accepts_only_matching. Qed.
+Print Assumptions C13_accepted_bodies_share_checksum.
+
+(* non-vacuity: a non-zero pattern in the field of a page whose checksum is not 0 *)
+Example C13_ex_flipped_field :
+  crc32 [1; 2; 3] <> 0 /\ N.lxor (crc32 [1; 2; 3]) 1 <> 0 /\
+  read_page_accepts (N.lxor (crc32 [1; 2; 3]) 1) [1; 2; 3] = false.
+Proof. vm_compute. repeat split; discriminate. Qed.
+
 (** The step with no input is injective on 32-bit registers (the inverse
     reads bit 31, which only the polynomial sets), and linear over xor. *)
 Theorem C13_step_injective : forall s t,
